@@ -476,3 +476,12 @@ def extend_views(d, xs):
 def invert_classes(classes):
     # round 4 (C10): {glyph: class for class, glyphs in classes.items() for glyph in glyphs} over a symbolic dict
     return {g: n for n, glyphs in classes.items() for g in glyphs}
+
+
+def singleton_len(x):
+    s = {x}
+    return len(s)
+
+
+def all_same_len(s, x):
+    return len(s)
